@@ -33,10 +33,47 @@ def attrs_of(n, base) -> set[str]:
 
 
 def one(paths, what):
+    """The single non-raising static path of a function. When a later change introduced a static case split, the paths are
+    merged back into one value (nested `ite` over the path conditions) so that the rule still compares what the function
+    computes with its reference -- equal branches normalise away, differing ones show up as a mismatch -- instead of
+    aborting the analysis."""
     live = [p for p in paths if p.raised is None]
-    if len(live) != 1:
-        raise AnalysisError(f"{what}: expected exactly one non-raising static path, found {len(live)}")
-    return live[0]
+    if len(live) == 1:
+        return live[0]
+    if not live:
+        raise AnalysisError(f"{what}: expected one non-raising static path, found none")
+    if len(live) > 16:
+        raise AnalysisError(f"{what}: expected one non-raising static path, found {len(live)}")
+    return merge_paths(live)
+
+
+def merge_paths(paths):
+    """Merge the paths of one function's decision tree into a single Path (ret / self_attrs become nested ite nodes)."""
+    from ..vgraph import Path
+
+    def tree(ps, depth, pick):
+        if len(ps) == 1 or all(len(p.conds) <= depth for p in ps):
+            return pick(ps[0])
+        test = ps[0].conds[depth][0]
+        if any(len(p.conds) <= depth or p.conds[depth][0] != test for p in ps):
+            # not a common decision at this depth: cannot merge soundly
+            raise AnalysisError("static paths do not form a decision tree on common tests")
+        yes = [p for p in ps if p.conds[depth][1]]
+        no = [p for p in ps if not p.conds[depth][1]]
+        if not yes or not no:
+            return tree(yes or no, depth + 1, pick)
+        a, b = tree(yes, depth + 1, pick), tree(no, depth + 1, pick)
+        return merge_nodes(test, a, b)
+
+    ret = tree(paths, 0, lambda p: p.ret if p.ret is not None else NONE)
+    keys = []
+    for p in paths:
+        for k in p.self_attrs:
+            if k not in keys:
+                keys.append(k)
+    attrs = {k: tree(paths, 0, lambda p, k=k: p.self_attrs.get(k, NONE)) for k in keys}
+    first = paths[0]
+    return Path(conds=[], ret=ret, raised=None, env=first.env, self_attrs=attrs, effects=list(first.effects), asserts=list(first.asserts))
 
 
 def live(paths):
@@ -152,3 +189,83 @@ def elementwise(c, dicts=(), level=None):
         return n
 
     return mapnodes(c[2], f), domains
+
+
+_IN_PROGRESS: set = set()
+
+
+class _NoMerge(Exception):
+    pass
+
+
+TAGGED = ("call", "bin", "un", "cmp", "boolop", "tuple", "list", "item", "sub", "record", "update", "ite", "attr", "comp", "scan", "slice", "star", "dict")
+
+
+def merge_nodes(test, a, b, depth=0):
+    """ite(test, a, b) with the selection pushed inwards as far as the two values share their structure (a static, loop-invariant
+    test distributes over every pure constructor), so that only the sub-terms that really differ sit under an `ite`."""
+    if a is b:
+        return a
+    if isinstance(a, Closure) and isinstance(b, Closure):
+        if a.node is b.node and a.bound_self == b.bound_self:
+            if a.env is b.env or a.env is None or b.env is None:
+                return a
+            key = (id(a), id(b))
+            if key in _IN_PROGRESS or depth > 40:
+                return a  # recursive reference (a closure whose environment contains itself)
+            _IN_PROGRESS.add(key)
+            try:
+                used = {n.id for n in ast.walk(a.node) if isinstance(n, ast.Name)}
+                env = dict(a.env)
+                same = True
+                for k in used:
+                    if k in a.env and k in b.env:
+                        env[k] = merge_nodes(test, a.env[k], b.env[k], depth + 1)
+                        same = same and env[k] is a.env[k]
+            finally:
+                _IN_PROGRESS.discard(key)
+            if same:
+                return a
+            c = Closure(a.node, env, a.ctx, a.name, a.bound_self, a.qualname)
+            c.snapped = True
+            return c
+        return ("ite", test, a, b)
+    if isinstance(a, Closure) or isinstance(b, Closure):
+        return ("ite", test, a, b)
+    try:
+        if a == b:
+            return a
+    except Exception:  # noqa: BLE001
+        pass
+    if not (isinstance(a, tuple) and isinstance(b, tuple)):
+        return ("ite", test, a, b)
+    tagged = bool(a) and bool(b) and isinstance(a[0], str) and a[0] == b[0] and a[0] in TAGGED
+    if tagged and len(a) == len(b) and depth < 60:
+        try:
+            return _merge_children(test, a, b, depth)
+        except _NoMerge:
+            return ("ite", test, a, b)
+    return ("ite", test, a, b)
+
+
+def _merge_children(test, a, b, depth):
+    """element-wise merge of two equally long tuples; untagged inner tuples (argument lists, keyword pairs) are merged
+    element-wise too and may not themselves become an `ite` (raises _NoMerge so that the enclosing node is selected whole)."""
+    out = []
+    for x, y in zip(a, b):
+        if isinstance(x, Closure) or isinstance(y, Closure):
+            out.append(merge_nodes(test, x, y, depth + 1))
+        elif isinstance(x, tuple) and isinstance(y, tuple):
+            x_tagged = bool(x) and isinstance(x[0], str) and x[0] not in (None,) and not (len(x) == 2 and not isinstance(x[1], tuple) and False)
+            if bool(x) and bool(y) and isinstance(x[0], str) and isinstance(y[0], str) and (x[0] in TAGGED or x[0] in ("param", "const", "global", "bound", "k")
+                                                                                           or y[0] in TAGGED or y[0] in ("param", "const", "global", "bound", "k")):
+                out.append(merge_nodes(test, x, y, depth + 1))  # expression position
+            elif len(x) == len(y):
+                out.append(_merge_children(test, x, y, depth + 1))  # structural container (args, kwargs, (name, value) pairs)
+            else:
+                raise _NoMerge
+        elif x == y:
+            out.append(x)
+        else:
+            raise _NoMerge
+    return tuple(out)
